@@ -64,8 +64,13 @@ class Stats:
         self.map_permuted += sim.get("map_permuted", 0)
         self.rendezvous += sim.get("rendezvous", 0)
         self.tasks_max = max(self.tasks_max, sim.get("tasks", 0))
-        if len(self.samples) < 4 and sim:
+        kinds_seen = [x.get("kind") for x in self.samples]
+        if sim and len(self.samples) < 6 and kinds_seen.count(job.get("kind")) < 2:
             self.samples.append(sample_record(job, r))
+        if str(job.get("_prog", "")).endswith("-nomain"):
+            self.faults["initialisation step failure configured"] += 1
+            if (r or {}).get("err"):
+                self.faults["initialisation step failure fired (analysis returned the error)"] += 1
 
     def coverage(self, rule, extra=None):
         cov = {"evaluations": self.runs, "distinct_nontrivial": len(self.nontrivial), "rule": rule,
@@ -777,7 +782,8 @@ def check_c17(tier, seed):
         if j.get("_ref") and r and not sysa.classify_hard(r) and not r.get("died"):
             look(j, r)
     cov = st.coverage(RULE_A, {"invariant_facts_checked": dict(checks), "schedule_sensitive_checks": dict(sched_sensitive),
-                               "monitor_instants": ["when the analysis returns (eager and on-demand graphs, taint and backtrace)"],
+                               "monitor_instants": ["when the analysis returns (eager, on-demand, field-sensitive and backtrace graphs)",
+                                                    "after on-demand summary construction steps (every fifth call of RunIntraProcedural outside the parallel pass, at most 25 per run): edge symmetry and global read/write sets; total %d instants" % checks.get("step:monitor-instants", 0)],
                                "dropped": dict(dropped), "runs_per_hour": int(st.runs / max(1e-9, time.time() - t0) * 3600),
                                "seeds": [seed]})
     write_evidence("C17", tier, seed, cov, time.time() - t0, len(rep.violations),
